@@ -13,9 +13,9 @@ PROPS = ["C10/Props.v"]
 CLAUSE = {1: "first-read-default", 2: "read-notified", 3: "default-method-twice", 4: "later-read-differs",
           5: "default-aliased", 6: "other-instance-changed", 7: "class-table-changed", 8: "new-instance-not-empty",
           9: "default-not-stored", 10: "harness-digest", 11: "read-raised", 20: "declared-class-tables"}
-CONTAINER = ("KListCopy", "KDictCopy", "KTraitList", "KTraitDict", "KTraitSet")
+CONTAINER = ("KListCopy", "KDictCopy", "KTraitList", "KTraitDict", "KTraitSet", "KArray")
 KINDS = ["KConst", "KListCopy", "KDictCopy", "KTraitList", "KTraitDict", "KTraitSet", "KFactory", "KMethod",
-         "KTuple", "KUnion", "KMethodInt", "KTuple2"]
+         "KTuple", "KUnion", "KMethodInt", "KTuple2", "KArray"]
 
 
 # ---- declared class tables (what the configuration says; compared in Coq with what the driver observed)
@@ -105,6 +105,8 @@ def op_term(op):
         return C(k, op[1], op[2])
     if k in ("SetMeta", "AssignFrom"):
         return C(k, op[1], op[2], op[3])
+    if k == "Delete":
+        return C(k, op[1], op[2])
     if k == "NewInst":
         return C(k, op[1])
     raise ValueError(op)
@@ -176,6 +178,8 @@ def gen_content(rnd, kind, like=None):
         return out
     if kind == "KTraitSet":
         return sorted(rnd.sample(range(1, 9), rnd.randint(0, 3)))
+    if kind == "KArray":
+        return list(like) if like is not None and rnd.random() < 0.5 else [rnd.randint(0, 9) for _ in range(len(like) if like is not None else rnd.randint(1, 3))]
     return [rnd.randint(0, 9) for _ in range(rnd.randint(0, 3))]
 
 
@@ -189,6 +193,8 @@ def gen_case(rnd, ctx, maxlen):
         traits.append(dict(name=n, kind=k, content=gen_content(rnd, k), scalar=rnd.randint(0, 9),
                            static=rnd.random() < 0.4,
                            cmp=rnd.choice(["equality"] * 5 + ["none", "identity"])))
+        if k == "KArray" and traits[-1]["cmp"] == "equality":
+            traits[-1]["cmp"] = "identity"       # (Array's own default comparison mode)
         ctx.count("kind:" + k)
         ctx.count("comparison-mode:" + traits[-1]["cmp"])
         if k in ("KListCopy", "KDictCopy") and rnd.random() < 0.35:
@@ -284,12 +290,14 @@ def gen_case(rnd, ctx, maxlen):
             op = ["Read", i, n]
         elif r < 0.65:
             op = ["Mutate", i, n, 100 + s]
-        elif r < 0.78:
+        elif r < 0.69:
             hid[0] += 1
             op = ["Register", i, n, hid[0], rnd.random() < 0.5 and not 60 <= n < 70]
             if rnd.random() < 0.25:
                 op = ["Register", i, -2, hid[0], False]        # on_trait_change(handler): every trait of the object
                 ctx.count("register:object-level")
+        elif r < 0.73:
+            op = ["Delete", i, n]                # del obj.n: with listeners the default is recomputed and stored
         elif r < 0.80 and extra[i]:
             op = ["SetMeta", i, rnd.choice(sorted(extra[i])), rnd.randint(1, 9)]    # metadata of an added trait
         elif r < 0.86:
@@ -297,7 +305,7 @@ def gen_case(rnd, ctx, maxlen):
             if rnd.random() < 0.4:
                 # obj.trait(name, copy=True), then metadata set on the copy
                 defined = [m for m in names if m < 60]     # (force=True on an unresolved wildcard name resolves it)
-                op = ["Introspect", i, rnd.choice([100000, 200000]) + 100 * rnd.choice(defined) + rnd.randint(1, 9)]
+                op = ["Introspect", i, rnd.choice([100000, 200000, 300000]) + 100 * rnd.choice(defined) + rnd.randint(1, 9)]
                 ctx.count("trait-copy-metadata")
         elif r < 0.95:
             if rnd.random() < 0.5:
@@ -325,8 +333,10 @@ def gen_case(rnd, ctx, maxlen):
             mat[op[1]].add(op[2])
         if op[0] == "Mutate" and op[2] < len(traits) and traits[op[2]]["kind"] == "KTuple2":
             dirty.add((op[1], op[2]))
-        if op[0] in ("Assign", "AssignFrom"):
+        if op[0] in ("Assign", "AssignFrom", "Delete"):
             dirty.discard((op[1], op[2]))
+        if op[0] == "Delete":
+            mat[op[1]].discard(op[2])
         ops.append(op)
         ctx.count("op:" + op[0])
     # inspect the siblings at the end: read every declared attribute of the last instance
@@ -349,17 +359,18 @@ def all_kinds_case(static):
     traits = [dict(name=n, kind=k, content=c, scalar=3, static=static) for n, (k, c) in enumerate([
         ("KConst", [5]), ("KListCopy", [1, 2]), ("KDictCopy", [1, 1]), ("KTraitList", [1, 2]), ("KTraitDict", [1, 1]),
         ("KTraitSet", [1]), ("KFactory", [9]), ("KMethod", [7]), ("KTuple", [4]), ("KUnion", [6]), ("KMethodInt", [4]),
-        ("KTuple2", [2])])]
+        ("KTuple2", [2]), ("KArray", [1, 2])])]
+    traits[-1]["cmp"] = "identity"
     sub = [dict(name=0, how="const", content=[6]), dict(name=3, how="list", content=[3]),
            dict(name=7, how="method", content=[8])]
     ops = [["NewInst", 0], ["NewInst", 1], ["NewInst", 0]]
-    for n in range(12):
+    for n in range(13):
         ops += [["Read", 0, n], ["Read", 0, n], ["Mutate", 0, n, 100 + n], ["Read", 1, n], ["Mutate", 1, n, 200 + n]]
     ops += [["Register", 0, 3, 1, False], ["Register", 1, 7, 2, True], ["Assign", 0, 3, [1], 0], ["Assign", 1, 7, [2], 0],
             ["Assign", 1, 0, [6], 0], ["Assign", 1, 0, [7], 0], ["Assign", 2, 10, [4], 0], ["Assign", 2, 10, [5], 0],
             ["AddTrait", 0, 50, dict(kind="KTraitList", content=[4, 4])], ["AddTrait", 0, 0, dict(kind="KConst", content=[77])],
             ["Read", 0, 50], ["Read", 0, 0], ["NewInst", 1], ["NewInst", 0]]
-    for n in range(12):
+    for n in range(13):
         ops += [["Read", 2, n], ["Read", 3, n], ["Read", 4, n], ["Read", 4, n]]
     return dict(traits=traits, sub=sub, ops=ops)
 
@@ -462,14 +473,29 @@ def definitions_case():
     ops = [["NewInst", 0], ["NewInst", 0], ["NewInst", 1]]
     for n in (0, 1, 2, 3, 4, 5, 70, 71):
         ops += [["Read", 0, n], ["Mutate", 0, n, 100 + n], ["Introspect", 0, 100000 + 100 * n + 4], ["Read", 1, n],
-                ["Introspect", 2, 200000 + 100 * n + 5], ["Read", 2, n]]
+                ["Introspect", 2, 200000 + 100 * n + 5], ["Introspect", 2, 300000 + 100 * n + 6], ["Read", 2, n]]
     ops += [["Assign", 0, 70, [8], 0], ["Assign", 1, 71, [9], 0], ["Assign", 2, 71, [2], 0], ["Assign", 2, 70, [2], 0],
             ["NewInst", 0], ["Read", 3, 0], ["Read", 3, 1], ["Read", 3, 70], ["Read", 3, 71]]
     return dict(traits=traits, sub=[], ops=ops, shared_ct=dict(value=3, names=[70, 71], static=[70]))
 
 
+def delete_case():
+    """Handlers of every mechanism, a value assigned, then del / read: the default the attribute reverts to is computed
+    once, stored and is what later reads return; without listeners nothing is computed until the next read."""
+    traits = [dict(name=n, kind=k, content=c, scalar=2, static=(n % 2 == 0)) for n, (k, c) in enumerate([
+        ("KMethod", [7]), ("KMethodInt", [4]), ("KFactory", [9]), ("KTraitList", [1, 2]), ("KTraitDict", [1, 1]),
+        ("KConst", [5]), ("KTuple", [3]), ("KArray", [1, 2])])]
+    traits[-1]["cmp"] = "identity"
+    ops = [["NewInst", 0], ["NewInst", 0], ["Register", 0, 1, 1, False], ["Register", 0, 3, 2, True], ["Register", 1, -2, 3, False]]
+    payload = {0: [1], 1: [6], 2: [2], 3: [3], 4: [2, 2], 5: [6], 6: [8], 7: [3, 4]}
+    for n in range(8):
+        ops += [["Assign", 0, n, payload[n], 1], ["Delete", 0, n], ["Read", 0, n], ["Read", 0, n], ["Delete", 0, n],
+                ["Delete", 0, n], ["Read", 1, n], ["Assign", 1, n, payload[n], 1], ["Delete", 1, n], ["Read", 1, n]]
+    return dict(traits=traits, sub=[], ops=ops)
+
+
 def corpus():
-    return [definitions_case(), wildcard_case(), all_kinds_case(False), all_kinds_case(True), sharing_case(), object_level_case(),
+    return [delete_case(), definitions_case(), wildcard_case(), all_kinds_case(False), all_kinds_case(True), sharing_case(), object_level_case(),
             comparison_mode_case("none"), comparison_mode_case("identity"), handover_case()]
 
 
@@ -489,12 +515,12 @@ def run(ctx):
                        "double reads on the last instance; a case is non-trivial if >= 2 instances exist and some step "
                        "returns a container object; distinct = distinct (configuration, history)")
     rnd = random.Random(ctx.seed)
-    n, maxlen = (200, 12) if ctx.tier == "quick" else (2500, 30)
+    n, maxlen = (150, 12) if ctx.tier == "quick" else (2500, 30)
     if ctx.replay:
         cases = [json.load(open(ctx.replay))["replay"]["case"]]
     else:
         cases = corpus() + [gen_case(rnd, ctx, maxlen) for _ in range(n)]
-    for c in cases[4:7] + cases[-1:]:   # evidence samples: two corpus cases, one random, the last random
+    for c in cases[5:8] + cases[-1:]:   # evidence samples: two corpus cases, one random, the last random
         ctx.sample(c)
     _evaluate = hist.evaluate
 
